@@ -165,8 +165,8 @@ type Sched struct {
 	ExploreMapOrder bool
 	// ExploreSelect: which ready select case is taken becomes a choice point.
 	ExploreSelect bool
-	// NoPreempt: the running thread continues while enabled (no thread choice
-	// points while it is enabled).
+	// NoPreempt: sequential mode. The running thread continues while enabled,
+	// otherwise the lowest enabled thread runs; no choice point is recorded.
 	NoPreempt bool
 	// PreemptFilter, if set, restricts which threads' scheduling points are
 	// preemption candidates (thread about to run op).
@@ -568,7 +568,7 @@ func (s *Sched) Step() bool {
 		}
 	}
 	if t == nil {
-		if len(en) == 1 || (s.NoPreempt && en[0] == s.lastRun) {
+		if len(en) == 1 || s.NoPreempt {
 			t = en[0]
 		} else {
 			cp := ChoicePoint{Kind: ChThread, N: len(en)}
